@@ -9,7 +9,8 @@ for d in sorted(Path("/verif/seeded").iterdir()):
     first = next((ln.strip(" -*#") for ln in notes.splitlines() if len(ln.strip()) > 30), "")
     what = m.get("summary") or first
     what = re.sub(r"\s+", " ", what)[:230]
-    det = ", ".join(f"{c['check']} {c['tier']}" for c in m["checks_run"] if c["exit"] == 1) or "-"
+    det = ", ".join(f"{c['check']} {c['tier']}" for c in m["checks_run"] if c["exit"] == 1) or (
+        "not detected (by design, see meta.json)" if m.get("not_detected_by_design") else "-")
     miss = ", ".join(f"{c['check']} {c['tier']}" for c in m["checks_run"] if c["exit"] == 0)
     flag = "yes (check strengthened)" if m.get("missed_before_strengthening") else "no"
     rows.append(f"| `{m['id']}` | {what} | {det} | {flag} |")
